@@ -19,14 +19,20 @@ SWEEP = {"quick": 2, "thorough": 3}
 from ..modsearch import check_module as check_history  # noqa: E402
 
 
+def _transition(h2, depth, case):
+    """one execution of the implementation (in its own forked child): closed history -> page, open history -> listener"""
+    msgs, dg, nt = check_history(h2, None, case)
+    impl = pipeline.impl_abstraction(cmakegen.render(cmakegen.items(h2, case))) if len(h2) < depth else None
+    return msgs, dg, nt, impl
+
+
 def expand(history, maxnest, depth, case):
     out = []
     for ev in statespace.enabled(history, maxnest):
         h2 = history + [ev]
-        msgs, dg, nt = check_history(h2, None, case)
+        msgs, dg, nt, impl = _transition(h2, depth, case)
         key = None
         if len(h2) < depth:
-            impl = pipeline.impl_abstraction(cmakegen.render(cmakegen.items(h2, case)))
             key = (statespace.model_key(h2), impl)
         out.append({"ev": ev, "key": key, "viol": msgs, "obs": dg, "nt": dg if nt else None,
                     "cls": msgs[0].split(":")[0] if msgs else None})
